@@ -110,6 +110,14 @@ def bitOut (pathOut : Str) (f : Nat) : Str := pathOut ++ ('_' :: (pad4 f ++ dotL
 def walkPair (dirIn dirOut name : Str) : Str × Str :=
   (join dirIn name, if dirOut = [] then [] else join dirOut name)
 
+/-- recursive `dirWalk`: a file at relative path `c₁/c₂/…/name` below `dirIn` — every level applies `walkPair`
+(`fp = join(theIn, n)`, `out_path = join(theOut, n)` if `theOut` else `''`), so the (input, output) pair of a task is a
+function of its full relative path: two files with the same *name* in different sub-directories are different tasks
+with different output directories. -/
+def walkPath (dirIn dirOut : Str) : List Str → Str × Str
+  | [] => (dirIn, dirOut)
+  | c :: r => walkPath (walkPair dirIn dirOut c).1 (walkPair dirIn dirOut c).2 r
+
 /-- Python `str` ordering (code points, lexicographic); `true` when `a ≤ b`. -/
 def strLe : Str → Str → Bool
   | [], _ => true
